@@ -10,6 +10,31 @@ NOTE = ("trusted: clang 14 front end + CFG builder, cmake's compile database, th
         "The check decides the listed structural clauses only - see DESIGN.md section 5 'Not decided'.")
 
 CLAIMS = {
+    "C08": dict(
+        technique="taint-style subject analysis of searches + regex-literal language equality + must-facts on the arity guards + shape rules",
+        text="Static: every regex search / find / replace in formatter::str runs over format_ only (substituted text cannot be rescanned); "
+             "the placeholder literal denotes exactly {\"{}\"} (automata equality); the 'more' raise sits on `placeholder == end` inside "
+             "the argument loop, the 'less' raise after it, and `return result` is reachable only when no placeholder remains; operator% "
+             "renders through one fresh local stream with a single insertion and appends to args_; args(a, rest...) applies % in order; "
+             "slice / resume / argument-text appends have the specified linear form; exception messages are streamed in argument order. "
+             "The output equation for brace corner cases depends on std::regex_iterator (not decided).",
+        ref="5/C08"),
+    "C15": dict(
+        technique="interprocedural observation-set (effect) analysis of the target stream + CFG/order rules on the listing code",
+        text="Static, all streams: following the std::ostream& parameter of parser::usage through every callee that receives it, the stream is "
+             "only ever the left operand of insertions (no tellp/width/flags/rdbuf/copyfmt or hand-over to an observing routine), so the text "
+             "cannot depend on the stream; group::usage iterates the creation-order list and formats each entry once; groups are listed default "
+             "first then in creation order, both lists appended only on successful insertion; the synopsis reads all three kinds; base::format "
+             "inserts both spellings, the placeholder, description, env hint and default. The 80-column bound / wrapping is not decided.",
+        ref="5/C15"),
+    "C17": dict(
+        technique="loop/termination idiom rules + linear resume-expression rules + must-facts on the infix insertion + idiom table",
+        text="Static: every find(needle, pos) loop rejects the empty needle first or steps pos forward explicitly for an empty match; split "
+             "resumes at hit + needle.size() with pieces substr(start, hit - start) / substr(start); replace_all replaces (hit, "
+             "pattern.length()) and resumes at hit + replacement.length(); join returns the stream text unmodified, inserts elements "
+             "directly and writes the infix only when the current element is known non-empty and not first; starts_with is a position-0 "
+             "idiom. The split/join inverse law and piece counts are equations over runtime strings (not decided).",
+        ref="5/C17"),
     "C16": dict(
         technique="sibling-table shape rules + instantiation census over the resolved call tree + type-level witnesses",
         text="Static: the six comparison operators are as_tuple(x) OP as_tuple(y) with their own symbol and operand order; hash() is "
